@@ -24,6 +24,9 @@ pub struct Params {
     pub thorough: bool,
     /// restrict the medium (None = drawn)
     pub force_medium: Option<Medium>,
+    /// user time-outs may be configured although the poll discipline is exact (C13 only: the C02 oracles
+    /// assume that nothing aborts a connection)
+    pub timeouts_in_exact: bool,
 }
 
 /// Seeds whose first ISN lies shortly below 2^31 or 2^32 (found black-box through the public API).
@@ -164,7 +167,7 @@ pub fn run(tape: &mut Tape, props: Props, p: &Params, trace_on: bool) -> Outcome
     let timeout: Vec<Option<i64>> = (0..2)
         .map(|_| {
             let k = tape.draw(8);
-            if p.liveness {
+            if p.liveness && !p.timeouts_in_exact {
                 None
             } else {
                 match k {
